@@ -211,6 +211,8 @@ pub struct Params {
     pub prefer_pure_change: bool,
     pub dedup_ref_inputs: bool,
     pub do_not_burn: bool,
+    /// change address used by the builder scenarios: 0 base (57 bytes), 1 Byron (longer), 2 enterprise (29 bytes)
+    pub change_kind: u8,
 }
 
 impl Params {
@@ -228,6 +230,7 @@ impl Params {
             prefer_pure_change: false,
             dedup_ref_inputs: false,
             do_not_burn: false,
+            change_kind: 0,
         }
     }
     pub fn config(&self) -> TransactionBuilderConfig {
